@@ -7,6 +7,7 @@ This module imports only its own group's generated file: a source change outside
 import TLX.Gen.Translated.Pn
 import TLX.Lemmas.Translated.Pn
 import TLX.Quic.PktNum
+import TLX.Quic.Packet
 namespace TLX.Props.Translated
 open TLX TLX.PyRt TLX.Lemmas.Translated TLX.Quic.PktNum
 
@@ -57,5 +58,24 @@ theorem get_full_packet_number_eq_model (srv : Bool) (pn : Bytes) (pnS pnC : Nat
 example : Gen.Py.get_full_packet_number true [0x9b, 0x32] 0xa82f30ea 0 =
     .ok [0, 0, 0, 0, 0xa8, 0x2f, 0x9b, 0x32] { pn_server := 0xa82f9b32, pn_client := 0 } := by decide +kernel
 example : Gen.Py.get_full_packet_number false [0x07] 5 0 = .ok [0x07] { pn_server := 5, pn_client := 7 } := by decide +kernel
+
+/-- The tables behind the two places of `get_full_packet_number` (`PACKET_TYPE_MAP`, and the two dicts
+    `set_packet_number_spaces` creates): every packet type that carries a packet number has a key in `PACKET_TYPE_MAP`
+    and that key is in both tables with the value 0 — the reads the translation treats as variables cannot raise
+    KeyError and start as the model's `Table.init` —, and two packet types share a table entry exactly when the model
+    puts them into the same packet-number space (`Quic.PType.space`: 0-RTT and 1-RTT together). -/
+theorem packet_number_spaces_eq_model :
+    (∀ t ∈ [Quic.PType.initial, .handshake, .rtt0, .rtt1],
+      (tableGet Gen.Py.PACKET_TYPE_MAP t).bind (tableGet Gen.Py.packet_number_server_init) = some 0 ∧
+      (tableGet Gen.Py.PACKET_TYPE_MAP t).bind (tableGet Gen.Py.packet_number_client_init) = some 0) ∧
+    (∀ a ∈ [Quic.PType.initial, .handshake, .rtt0, .rtt1], ∀ b ∈ [Quic.PType.initial, .handshake, .rtt0, .rtt1],
+      (tableGet Gen.Py.PACKET_TYPE_MAP a = tableGet Gen.Py.PACKET_TYPE_MAP b) ↔ (a.space = b.space)) ∧
+    -- … and the lookup raises KeyError exactly where the model's `space` is `none` (Retry, Version Negotiation)
+    (∀ t ∈ [Quic.PType.initial, .rtt0, .rtt1, .handshake, .retry, .versionNeg],
+      (tableGet Gen.Py.PACKET_TYPE_MAP t).isSome = t.space.isSome) := by
+  decide
+
+example : tableGet Gen.Py.PACKET_TYPE_MAP .rtt0 = tableGet Gen.Py.PACKET_TYPE_MAP .rtt1 ∧
+    tableGet Gen.Py.PACKET_TYPE_MAP .initial ≠ tableGet Gen.Py.PACKET_TYPE_MAP .handshake := by decide
 
 end TLX.Props.Translated
